@@ -1,4 +1,4 @@
 #!/bin/sh
 # tools/recheck_batch.sh <file> [parallel]: lines "<seed-id> <check>..." -> tools/try_wt.sh on seeded/<id>/patch.diff, appended to scratch/w9/<seed-id>.log
 f=$1; P=${2:-4}
-grep -v '^#' "$f" | xargs -P $P -L 1 sh -c 'id=$0; SHOW=1 nice -n 5 /verif/tools/try_wt.sh /verif/seeded/$id/patch.diff "$@" >> /verif/scratch/w9/$id.log 2>&1; echo "rechecked $id"'
+grep -v '^#' "$f" | xargs -P $P -L 1 sh -c 'id=$0; SHOW=1 nice -n 5 /verif/tools/try_wt.sh /verif/seeded/$id/patch.diff "$@" >> /verif/scratch/${WAVE:-w9}/$id.log 2>&1; echo "rechecked $id"'
